@@ -330,6 +330,10 @@ var cstStrChars = []string{"a", "b", "z", " ", "*", ".", "/", "-", "_", "{", "}"
 func (g *cstGen) str() string {
 	n := g.r.Intn(8)
 	var b strings.Builder
+	if g.r.Intn(40) == 0 {
+		b.WriteString("\n") // a line end directly after the opening quote is read before any line-end check
+		g.feats["lf_first_in_string"]++
+	}
 	for i := 0; i < n; i++ {
 		c := cstStrChars[g.r.Intn(len(cstStrChars))]
 		if len(c) > 1 {
@@ -387,6 +391,12 @@ func (g *cstGen) command(first bool) string {
 		if g.r.Intn(9) == 0 && b.Len() > 0 {
 			b.WriteString("{{." + []string{"X", "NAME", "a_b"}[g.r.Intn(3)] + "}}")
 			g.feats["interpolation_in_command"]++
+			continue
+		}
+		if g.r.Intn(60) == 0 && b.Len() > 0 {
+			// the "{{" lookahead swallows without looking at the rune before it: a '}' or a non-ASCII rune survives there
+			b.WriteString([]string{"}", "é", "#"}[g.r.Intn(3)] + "{{.X}}")
+			g.feats["rune_hidden_by_interpolation_lookahead"]++
 			continue
 		}
 		c := cmdChars[g.r.Intn(len(cmdChars))]
